@@ -341,6 +341,23 @@ def cleanup_mark_findings(F):
         callers = sorted({c.body.name for c in F.all_calls("pgcat::server::Server::sync_parameters")})
         ok_reset = bool(q) and bool(rs) and all(sp.dominates(q[0].block, r_.block) for r_ in rs) and callers == [H] and len(in_h) == 1 and bool(claim_) and not [c for c in h.calls(*[x for x in SERVER_IO if not x.endswith("sync_parameters")]) if h.dominates(c.block, in_h[0].block)]
         why_sp = " and by sync_parameters for the SETs pgcat itself issues right after the checkout, before any client statement"
+    # the SET tag marks the connection whatever Server.in_transaction says at that moment (D42): the flag follows ReadyForQuery, i.e. it is stale
+    # within a multi-statement reply (`COMMIT; SET x`), and a SET inside a transaction that commits stays in force as well
+    rv = F.body("pgcat::server::Server::recv::{closure#0}")
+    if rv is not None:
+        rsw = switches(rv)
+        marks = [blk for blk, i, st in rv.assigns() if proj_fields(st["lhs"])[-1:] == ["needs_cleanup_set"] and st["rv"]["k"] == "use" and const_int(st["rv"].get("op")) == 1]
+        eqs = [k for k in rv.calls("re:PartialEq.*::eq$") if "SET" in arg_strs(rv, k)]
+        skipped = None
+        for k in eqs:
+            for sw_, o_, te, fe in bool_value_edges(rv, lambda o, k=k: o.kind == "call" and o.call.block == k.block, rsw):
+                R = rv.reach([te[1]], avoid_blocks=marks, want_parents=True)
+                joins = [b for b in R if b != sw_.block and rv.postdominates(b, sw_.block)]
+                if joins:
+                    skipped = rv.describe_path(rv.path(R, min(joins))) or "the in_transaction test in front of the mark"
+        out.append(("set-tag=>marked", bool(eqs) and bool(marks) and skipped is None, "every CommandComplete `SET` marks the connection for RESET ALL",
+                    "a CommandComplete `SET` marks the connection for RESET ALL only under a condition (%s): `COMMIT; SET x` sent as one query (the SET runs outside the transaction, its tag arrives before the ReadyForQuery that "
+                    "updates in_transaction) and a SET inside a transaction that commits both stay in force for the next client" % (skipped or "no mark / no SET tag compare found")))
     out.append(("reset-after-cleanup-query", ok_reset, "CleanupState::reset() is called only by checkin_cleanup after the clean-up query" + why_sp,
              "CleanupState::reset() is called from %s / not after the clean-up query: marks are dropped without cleaning the session" % rc_))
     return out
